@@ -23,6 +23,11 @@ impl TypeRegistry {
         self.pointer_size
     }
 
+    /// The number of registered items (including predefined and generated ones)
+    pub(crate) fn len(&self) -> usize {
+        self.types.len()
+    }
+
     pub fn get(&self, item_path: &ItemPath) -> Option<&ItemDefinition> {
         self.types.get(item_path)
     }
